@@ -9,12 +9,12 @@ TECHNIQUE = 'static analysis: value numbering of MIR def-use DAGs to non-commuta
 RULES = {
     'C16.R1': 'kernel identities: apply, apply_transpose, compose, stack, negate, row/row_iter (same row index), remove_zero_columns (bias untouched), '
               'as_polytope/as_function/new/view/to_owned (field-wise), convert_to per PolyRepr arm',
-    'C16.R3': 'row selection: remove_rows / remove_zero_rows return a sub-sequence of the unchanged (row i, bias i) pairs of self; remove_zero_rows drops a row only if all its coefficients and its bias are zero (shared with C15.R1/R3)',
+    'C16.R3': 'row selection: remove_rows / remove_zero_rows return a sub-sequence of the unchanged (row i, bias i) pairs of self; remove_zero_rows drops a row only if all its coefficients and its bias are zero ; from_row_iter copies item i to row i / bias i (shared with C15.R1/R3)',
     'C16.R2': 'named constructors: identity, zeros, constant, unit, zero_idx, sum, subtraction, rotation, scaling, uniform_scaling, translation',
 }
 CONTROL_REV = '078b142'  # thorough tier: the rules must still report the defects found (and since fixed) on the original tree
 CONTROLS = [('C16.R2', 'AffFuncBase::translation'), ('C16.R2', 'AffFuncBase::subtraction#aliasing')]
-FLOORS = {'C16.R1': 35, 'C16.R2': 12, 'C16.R3': 3}
+FLOORS = {'C16.R1': 36, 'C16.R2': 12, 'C16.R3': 4}
 EXPLANATION = ('Each kernel is single-path; its returned value is a polynomial in the operands, and polynomial identities over matrices of all sizes are decidable by '
                'normal-form comparison. Constructor forms (base matrix + point writes) are compared entry-wise with the documented meaning.')
 DOES_NOT_DECIDE = 'from_row_iter/remove_rows iterator plumbing (C15), % semantics beyond element-wise, floating-point rounding'
@@ -50,6 +50,7 @@ def obligation(ctx, rule, F, q, spec, impl_filter=None, site=None):
 
 
 def run(ctx):
+    prune.check_layout_independence(ctx, 'C16.R1')
     F = ctx.facts
     fn = lambda b: 'FunctionT' in (b.impl_self or '')
     A = lambda env, n='self': env[n]
@@ -81,7 +82,8 @@ def run(ctx):
     sub = Ctx(ctx.facts, ctx.tier, ctx.prop)
     c15.run(sub)
     for i in sub.insts:
-        if i.rule in ('C15.R1', 'C15.R3') and (i.site.startswith('AffFuncBase::remove_rows') or i.site.startswith('AffFuncBase::remove_zero_rows')):
+        if i.rule in ('C15.R1', 'C15.R3') and (i.site.startswith('AffFuncBase::remove_rows') or i.site.startswith('AffFuncBase::remove_zero_rows') or
+                                              i.site.startswith('AffFuncBase::from_row_iter')):
             i.rule = 'C16.R3'
             ctx.insts.append(i)
     convert_to(ctx, F)
